@@ -34,7 +34,7 @@ ASSUMPTIONS = [
     "failpoints are placed only in callee frames below as_dict/as_obj: no real exception can arise between the plain assignments at the top of these two functions",
     "the slots are read through their name-mangled class attributes",
 ]
-MUST_SEE = ["flag_only_dialect", "equal_but_distinct_source_objects", "faults_outside_the_exception_tree", "indented_json_with_options", "option_spelled_false", "raised_with_options", "failpoints_fired", "failpoint_nested", "default_after_fault", "bomb_positions", "corrupt_payloads", "option_subsets", "mappings_walked", "explorer_children_checked", "index_sources_checked", "deser_with_options", "repo_tests_slot_checks", "shared_options_object"]
+MUST_SEE = ["tagless_payload_recreated", "flag_only_dialect", "equal_but_distinct_source_objects", "faults_outside_the_exception_tree", "indented_json_with_options", "option_spelled_false", "raised_with_options", "failpoints_fired", "failpoint_nested", "default_after_fault", "bomb_positions", "corrupt_payloads", "option_subsets", "mappings_walked", "explorer_children_checked", "index_sources_checked", "deser_with_options", "repo_tests_slot_checks", "shared_options_object"]
 CONFIG = {
     "quick": {"shards": 16, "trees": 16, "subsets": 14, "failpoint_trees": 1, "watchdog_s": 600},
     "thorough": {"shards": 32, "trees": 40, "subsets": 48, "failpoint_trees": 4, "watchdog_s": 3400},
@@ -107,6 +107,7 @@ def run_shard(ctx):
         right=U.cls[f"{P}List"](items=(U.cls[f"{P}Leaf"](v=2),), origin=O.build_origin(("multi", (("gen", 1), ("xml", 2, "/a"))))),
     )
     baseline = json.dumps(probe.as_dict(), default=str)
+    baseline_text = {fe: getattr(probe, fe)() for fe in ("to_yaml", "to_json", "to_msgpck")}
 
     def bad(mech, what, **d):
         ctx.violation(mech, what, d)
@@ -120,6 +121,12 @@ def run_shard(ctx):
             DataClassSerializeMixin._DataClassSerializeMixin__serialization_options = {}
             DataClassSerializeMixin._DataClassSerializeMixin__mashumaro_dialect = None
             return
+        # the default output of every front-end, as text (key order included), is what it was before
+        for fe in ("to_yaml", "to_json", "to_msgpck"):
+            if fe in str(desc.get("call", "")) or raised:
+                txt = getattr(probe, fe)()
+                if txt != baseline_text[fe]:
+                    bad("default-output-changed", f"a later {fe}() without options does not produce the default text", call=desc, raised=raised, now=repr(txt)[:200], default=repr(baseline_text[fe])[:200])
         now = json.dumps(probe.as_dict(), default=str)
         if now != baseline:
             bad("default-output-changed", "a later call without options does not produce the default output", call=desc, raised=raised, diff_at=next((i for i, (a, b) in enumerate(zip(now, baseline)) if a != b), None), now=now[:300])
@@ -362,6 +369,29 @@ def run_shard(ctx):
             except Exception as e:  # noqa: BLE001
                 bad("deserialize-raised", f"{dhow} raised {type(e).__name__}: {e}"[:300], **dcall)
             after_call(dcall, False)
+        # ---------------- a deserialization call's (format) dialect reaches objects without a type tag too
+        if case % 2 == 0:
+            from vlib.regmodel import collect as _collect
+
+            blob = U.cls[f"{P}Blob"](data=rng.choice([b"\xff\x00\xfe", b"caf\xe9", b"", b"abc"]), origin=O.build_origin(("no",)))
+            exp_data, exp_id = blob.data, blob.id
+            so_ = {SerializationOption.SKIP_CLASS: True}
+            for ser, de in (("to_msgpck", "from_msgpck"), ("to_json", "from_json"), ("as_dict", "as_obj")):
+                ctx.evaluations += 1
+                ctx.count("tagless_payload_recreated")
+                try:
+                    pl = getattr(blob, ser)(serialization_options=dict(so_))
+                    blob.detach()
+                    back = getattr(U.cls[f"{P}Blob"], de)(pl, serialization_options=dict(so_))
+                    ok_ = back.data == exp_data and type(back.data) is bytes and back.id == exp_id and back is not blob
+                    back.detach()
+                except Exception as e:  # noqa: BLE001
+                    ok_ = f"{type(e).__name__}: {e}"[:160]
+                if ok_ is not True:
+                    bad("deser-dialect-not-applied", f"{de} of a payload written by {ser} with type tags suppressed does not give the node back (the format's dialect must reach tag-less objects too)", got=ok_, data=repr(exp_data))
+                after_call({"call": de, "options": ["skip_class=True"]}, False)
+                blob = U.cls[f"{P}Blob"](data=exp_data, origin=O.build_origin(("no",)))
+            blob.detach()
         # ---------------- (a) raising property at each position
         positions = [p for p in preorder(U, s)]
         for p in positions if len(positions) <= 8 else rng.sample(positions, 8):
